@@ -54,6 +54,9 @@ pub struct Sim {
     /// it runs, besides its outputs (e.g. a cache it also reports as a
     /// dependency).
     pub side_touch: BTreeMap<String, Vec<String>>,
+    /// Steps (by first output) adopted by restat and not run since: their
+    /// contents are whatever was there, by design.
+    pub adopted: std::collections::BTreeSet<String>,
 }
 
 #[derive(Debug, Clone)]
@@ -77,6 +80,7 @@ impl Sim {
             raw_depfile: BTreeMap::new(),
             skip_outputs: Vec::new(),
             side_touch: BTreeMap::new(),
+            adopted: std::collections::BTreeSet::new(),
         }
     }
 
@@ -228,6 +232,7 @@ impl CommandModel for Sim {
                 Term::Failure
             }
             Outcome::Ok => {
+                self.adopted.remove(&key);
                 self.write_outputs(g, step);
                 let reported: Option<Vec<String>> = if s.depfile.is_some() || s.msvc {
                     Some(self.reports.get(&key).cloned().unwrap_or_default())
@@ -237,6 +242,11 @@ impl CommandModel for Sim {
                 let mut depfile_ok = true;
                 if let Some(df) = &s.depfile {
                     let text = match self.raw_depfile.get(&key) {
+                        Some(raw) if raw == "<none>" => {
+                            // the command writes no depfile at all
+                            let _ = std::fs::remove_file(df);
+                            String::new()
+                        }
                         Some(raw) => {
                             depfile_ok = n2::verif::parse_depfile(raw.as_bytes()).is_ok();
                             raw.clone()
@@ -251,7 +261,9 @@ impl CommandModel for Sim {
                             t
                         }
                     };
-                    std::fs::write(df, text).expect("write depfile");
+                    if self.raw_depfile.get(&key).map(|r| r.as_str()) != Some("<none>") {
+                        std::fs::write(df, text).expect("write depfile");
+                    }
                 }
                 if s.msvc {
                     // Delivered in small pieces, as a pipe may split anywhere.
